@@ -181,6 +181,11 @@ func handlesErr(ins ssa.Instruction, tainted map[ssa.Value]bool) bool {
 	case *ssa.MapUpdate:
 		return uses(x.Value)
 	case ssa.CallInstruction:
+		// a predicate over the error (errors.Is / errors.As / a module function that returns
+		// only a bool) classifies it; it does not report it
+		if isErrPredicate(x.Common()) {
+			return false
+		}
 		for _, a := range x.Common().Args {
 			if uses(a) {
 				// passing the error to a call: logging/formatting/reporting. Pure formatting whose
@@ -191,6 +196,16 @@ func handlesErr(ins ssa.Instruction, tainted map[ssa.Value]bool) bool {
 		}
 	}
 	return false
+}
+
+// isErrPredicate: the call only asks a yes/no question (its single result is a bool).
+func isErrPredicate(c *ssa.CallCommon) bool {
+	res := c.Signature().Results()
+	if res == nil || res.Len() != 1 {
+		return false
+	}
+	b, ok := res.At(0).Type().Underlying().(*types.Basic)
+	return ok && b.Kind() == types.Bool
 }
 
 // taintFrom computes the values derived from v within fn (through operands).
@@ -216,6 +231,9 @@ func taintFrom(v ssa.Value) map[ssa.Value]bool {
 					}
 					if c, isCall := ins.(*ssa.Call); isCall {
 						if b, isB := c.Call.Value.(*ssa.Builtin); isB && b.Name() == "len" {
+							break
+						}
+						if isErrPredicate(&c.Call) {
 							break
 						}
 					}
@@ -378,16 +396,23 @@ func ruleErr(sc errScope) ruleFn {
 	return func(r *Run) {
 		set := r.scopeFuncs(panicScope{label: sc.label, roots: sc.roots, pkgs: sc.pkgs})
 		var fns []*ssa.Function
-		for fn := range set {
-			fns = append(fns, fn)
+		for _, fn := range r.P.Funcs {
+			if fn.Synthetic == "" {
+				fns = append(fns, fn)
+			}
 		}
 		sort.Slice(fns, func(i, j int) bool { return fnName(fns[i]) < fnName(fns[j]) })
 		n := 0
+		defer func() { r.silent = false }()
 		for _, fn := range fns {
+			// out-of-scope functions are walked silently: see Run.add
+			r.silent = !set[fn]
 			name := fnName(fn)
 			srcs, dropped := errSources(fn)
 			for _, d := range dropped {
-				n++
+				if !r.silent {
+					n++
+				}
 				construct := "drop " + d.desc
 				site := r.P.pos(d.call.Pos())
 				if r.neverFails(d.call, 0) {
@@ -402,12 +427,16 @@ func ruleErr(sc errScope) ruleFn {
 				tests := failureTests(s.val)
 				if len(tests) == 0 {
 					// used without a test: returned, passed on, stored… — propagation
-					n++
+					if !r.silent {
+						n++
+					}
 					r.OK("R6.flow", name, "use "+s.desc, r.P.pos(s.call.Pos()), "error value is used (returned/stored/passed on) without being filtered by a test")
 					continue
 				}
 				for _, t := range tests {
-					n++
+					if !r.silent {
+						n++
+					}
 					construct := "test " + s.desc
 					site := r.P.pos(s.call.Pos())
 					sw, why := r.swallowed(s.val, t)
@@ -431,6 +460,7 @@ func ruleErr(sc errScope) ruleFn {
 				}
 			}
 		}
+		r.silent = false
 		r.AtLeast("R6", "error-like values in scope "+sc.label, n, sc.min)
 	}
 }
